@@ -17,7 +17,7 @@ type legacyHandler struct {
 	eventMgr event.Manager
 
 	rwMutex
-	prevResourceResponse bool
+	prevResourceResponse *bool // nil until the client has accepted (true) or declined (false) a pack
 	outstandingPacks     *deque.Deque[*Info]
 	pendingPack          *Info
 	appliedPack          *Info
@@ -91,7 +91,7 @@ func (h *legacyHandler) tickResourcePackQueue() error {
 	queued, ok := h.outstandingPacks.Front()
 	if ok {
 		// Check if the player declined a resource pack once already
-		if !h.prevResourceResponse {
+		if h.prevResourceResponse != nil && !*h.prevResourceResponse {
 			// If that happened we can flush the queue right away.
 			// Unless its 1.17+ and forced it will come back denied anyway
 			for h.outstandingPacks.Len() > 0 {
@@ -163,10 +163,12 @@ func (h *legacyHandler) onResourcePackResponseLocked(
 
 	switch bundle.Status {
 	case AcceptedResponseStatus:
-		h.prevResourceResponse = true
+		accepted := true
+		h.prevResourceResponse = &accepted
 		h.pendingPack = queued
 	case DeclinedResponseStatus:
-		h.prevResourceResponse = false
+		accepted := false
+		h.prevResourceResponse = &accepted
 	case SuccessfulResponseStatus:
 		h.appliedPack = queued
 		h.pendingPack = nil
